@@ -160,6 +160,30 @@ FSNEW_RP = T("GoNewRP", [
     ("tie_sd_Var_labels", "CM.GoTie.GoSDVar.varSummary_labels", "… every label of `SD.varLabels` carries Percentile at its own number"),
     ("tie_sd_Var_same_Percentile", "CM.GoTie.GoSDVar.go_Percentile_same", "the Percentile this unit calls is the body tied in GoSortedDurations")])
 
+# ---- metrics/rolling: ErrorPercentage, construction of the rolling objects, StatFactory, Find* (units GoStatsRun …)
+STATS = T("GoStatsRun", [
+  ("tie_stats_ErrorsAt", "CM.GoTie.GoStatsRun.go_ErrorsAt_eq", "`ErrorsAt` = failures + timeouts, both read at the same instant (state with object identities)"),
+  ("tie_stats_LegitimateAttemptsAt", "CM.GoTie.GoStatsRun.go_LegitimateAttemptsAt_eq", "`LegitimateAttemptsAt` = successes + failures + timeouts"),
+  ("tie_stats_ErrorPercentageAt", "CM.GoTie.GoStatsRun.go_ErrorPercentageAt_eq", "today's `ErrorPercentageAt` returns the model's `Cons.errorPercentage` of the three rolling sums (0 without attempts, else the binary64 quotient)"),
+  ("tie_stats_ErrorPercentage_formula", "CM.GoTie.GoStatsRun.errorPercentageAt_formula", "… which is the correctly rounded (f+t)/(s+f+t)"),
+  ("tie_stats_ErrorPercentage", "CM.GoTie.GoStatsRun.go_ErrorPercentage_eq", "`ErrorPercentage()` is `ErrorPercentageAt` of one reading of the WALL clock"),
+  ("tie_stats_Config", "CM.GoTie.GoStatsRun.go_Config_eq", "`Config()` returns what was stored"),
+  ("tie_stats_SetConfig", "CM.GoTie.GoStatsRun.go_SetConfigNotThreadSafe_eq", "`SetConfigNotThreadSafe` builds eight rolling objects, each by its own constructor call, from the config and one clock reading"),
+  ("tie_stats_SetConfig_fresh", "CM.GoTie.GoStatsRun.setConfig_fresh", "… eight different, new objects"),
+  ("tie_stats_SetConfig_model", "CM.GoTie.GoStatsRun.setConfig_toCons", "… which are the model's `RunStats.new`")])
+STATSFB = T("GoStatsFb", [
+  ("tie_fbstats_SetConfig", "CM.GoTie.GoStatsFb.go_SetConfigNotThreadSafe_eq", "`FallbackStats.SetConfigNotThreadSafe` builds three counters of its own from one clock reading"),
+  ("tie_fbstats_SetConfig_fresh", "CM.GoTie.GoStatsFb.setConfig_fresh", "… three different, new objects")])
+STATFACTORY = T("GoStatsFactory", [
+  ("tie_factory_CreateConfig", "CM.GoTie.GoStatsFactory.go_CreateConfig_eq", "`CreateConfig` binds the name to the SAME fresh collectors it puts into the returned config"),
+  ("tie_factory_lookup", "CM.GoTie.GoStatsFactory.create_then_lookup", "… so `RunStats(name)` / `FallbackStats(name)` hand out the created circuit's collectors"),
+  ("tie_factory_others", "CM.GoTie.GoStatsFactory.create_keeps_others", "… and other names keep theirs"),
+  ("tie_factory_RunStats", "CM.GoTie.GoStatsFactory.go_RunStats_eq", "`RunStats(name)` is the newest binding of the name"),
+  ("tie_factory_FallbackStats", "CM.GoTie.GoStatsFactory.go_FallbackStats_eq", "`FallbackStats(name)` likewise")])
+STATSFIND = T("GoStatsFind", [
+  ("tie_find_run", "CM.GoTie.GoStatsFind.go_FindCommandMetrics_eq", "`FindCommandMetrics` = the first *RunStats among the circuit's run collectors"),
+  ("tie_find_fb", "CM.GoTie.GoStatsFind.go_FindFallbackMetrics_eq", "`FindFallbackMetrics` = the first *FallbackStats among its fallback collectors")])
+
 # ---- K6: interference ties (CircuitProofs/GoTie/I_*): the bodies translated over primitives in which an arbitrary move of the
 # other goroutines precedes every atomic / lock operation take exactly the steps of the small-step model's thread
 K6_CORE = [(("tie_k6_thread_view", "CM.GoTie.ICore.thread_view", "every schedule of any system, seen from one thread, is a run of that thread alone against SOME oracle: what is proved for every oracle covers every schedule"), "I_Core")]
@@ -228,7 +252,7 @@ PROPS = {
     "C14": ("the counter under interference: every atomic step of rolling_counter.go / rolling_bucket.go is the small-step model's", K6_RC + K6_CORE + ATOM_I64),
     "C15": ("rolling_percentile.go: the ring of circular buffers is the model `RP` / `DSlot`, the snapshot's numbers are the model `SD`", RPT + SD + FSNEW_RP),
     "C16": ("the gate: timedcheck.go's method bodies are the model `TC`", TC + K6_TC + K6_CORE + ATOM_BOOL + ATOM_I64),
-    "C17": ("the registry: manager.go's CreateCircuit / GetCircuit / MustCreateCircuit are the model `Mgr`", MGR),
+    "C17": ("the registry: manager.go's CreateCircuit / GetCircuit / MustCreateCircuit are the model `Mgr`", MGR + STATFACTORY + STATSFIND),
     "C20": ("the collectors' method bodies, translated from today's rolling.go / responsetime.go, are the model's functions",
             T("GoRunStats", evs("GoRunStats", "Cons.RunStats.onRun") + [
                 ("tie_GoRunStats_ErrorsAt", "CM.GoTie.GoRunStats.go_ErrorsAt_eq", "errors = failures + timeouts, both read at the same instant"),
@@ -244,7 +268,7 @@ PROPS = {
                 ("tie_GoSlo_failure", "CM.GoTie.GoSlo.go_failure_eq", "a fail verdict moves the counter and tells every collector"),
                 ("tie_GoSlo_healthy", "CM.GoTie.GoSlo.go_healthy_eq", "a pass verdict likewise"),
                 ("tie_GoSlo_onRun_slo", "CM.GoTie.GoSlo.onRun_slo", "the tracker part of `SloW.onRun` is `Slo.onRun`"),
-                ("tie_GoSlo_tell_told", "CM.GoTie.GoSlo.tell_told", "each verdict reaches every attached collector exactly once")]) + SLO_CFG),
+                ("tie_GoSlo_tell_told", "CM.GoTie.GoSlo.tell_told", "each verdict reaches every attached collector exactly once")]) + SLO_CFG + STATS + STATSFB + STATSFIND),
 }
 
 # which regenerated units each property's tie depends on (-> lib/props.py "generated")
@@ -257,6 +281,7 @@ UNITS = {"F_": "gocircuit", "All": "gocircuit", "T_GoHOpener": "gohopener", "T_G
          "T_GoAtomicBoolean": "goatomicboolean", "T_GoAtomicInt64": "goatomicint64",
          "T_GoNewRC": "gonewrc", "T_GoNewRP": "gonewrp", "T_GoRCWall": ["gorcwall", "gorollingcounter", "gorollingbuckets"], "T_GoRPSnap": ["gorpsnap", "gorollingpercentile", "gorollingbucketsp", "godurationsbucket"],
          "T_GoDBIter": "godbiter", "T_GoSDVar": ["gosdvar", "gosorteddurations"],
+         "T_GoStatsRun": "gostatsrun", "T_GoStatsFb": "gostatsfb", "T_GoStatsFactory": "gostatsfactory", "T_GoStatsFind": "gostatsfind",
          "I_Core": [], "I_RC": ["gorciclear", "gorciadv", "gorciops"], "I_TC": "gotci", "I_Call": "gocalli",
          "T_GoLiveLogic": ["goneveropens", "gonevercloses", "gohopenercfg", "gohclosercfg", "goslocfg"]}
 
